@@ -296,6 +296,9 @@ func (v *Verifier) dischargeLocked(o *Obligation, timeoutS int, needTwo bool, mu
 	if o.Trivial {
 		return &Result{Obl: o, Status: "trivial", Backend: "simplifier"}
 	}
+	if o.built {
+		return v.solveText(o, o.q, o.qAbs, o.gv, timeoutS, needTwo)
+	}
 	mu.Lock()
 	q, gv := v.buildQuery(o, true)
 	abs := lastAbs
